@@ -48,9 +48,21 @@ Qed.
 Lemma pcwait_classes p m : pcwait p m = true ->
   kfree p m = false /\ kmust p m = false /\ knot p m = false /\ kz2 p m = false /\ kz3 p m = None /\ kz4 p m = false.
 Proof.
-  unfold kfree, kmust, kz1. destruct p; cbn; try discriminate; try (destruct k; cbn; try discriminate);
-    intros ->; cbn; auto.
+  unfold kfree, kmust, kz1, kz2, kz3, kz4, knot, must, pcwait.
+  destruct p; try discriminate; try (destruct k; try discriminate); intros H; rewrite ?H; cbn; auto 10.
 Qed.
 
 Lemma aintr_step s l s' : step s l = Some s' -> aintr s' = aintr s.
-Proof. intros Hs. step_cases Hs; try reflexivity; cbn; repeat (destruct (_ : bool)); reflexivity. Qed.
+Proof.
+  intros Hs. destruct l; cbn [step] in Hs.
+  - unfold start in Hs. destruct (pc (th s t)); try discriminate. destruct o; split_ifs Hs; try discriminate; injection Hs as <-; reflexivity.
+  - unfold tstep in Hs. cbv zeta in Hs. destruct (pc (th s t)); unfold try_lock in Hs; split_ifs Hs; try discriminate;
+      injection Hs as <-; unfold ret_lock, after_sleep, intr_out, acquired, prelocked_interrupt, dequeue, goto, setT, setM;
+      cbn [aintr]; repeat match goal with |- context [if ?b then _ else _] => destruct b | |- context [match ?b with _ => _ end] => destruct b end; cbn [aintr]; reflexivity.
+  - unfold sched in Hs. split_ifs Hs; try discriminate; injection Hs as <-; reflexivity.
+  - unfold drain in Hs. split_ifs Hs; try discriminate; injection Hs as <-; reflexivity.
+  - unfold exp_lock in Hs. split_ifs Hs; try discriminate; injection Hs as <-; reflexivity.
+  - unfold exp_body in Hs. split_ifs Hs; try discriminate; injection Hs as <-; unfold dequeue, setT, setM; cbn [aintr];
+      repeat match goal with |- context [match ?b with _ => _ end] => destruct b end; cbn [aintr]; reflexivity.
+  - split_ifs Hs; try discriminate; injection Hs as <-; reflexivity.
+Qed.
